@@ -388,6 +388,7 @@ pub fn models(tier: Tier, seed: u64) -> Vec<Box<dyn DynModel>> {
         v.push(bounded(M06::<Bls12381G1Impl>::new(tier, seed), 3));
         v.push(bounded(M06::<Bls12381G2Impl>::new(tier, seed), 3));
     }
+    v.extend(crate::props::aggx::models("C06", tier, seed));
     v
 }
 
